@@ -143,6 +143,30 @@ pub fn flow(o: &FlowOpts, rng: &mut Rng, arts: &mut Vec<Art>) -> Result<Value, S
     put!(arts, "CredentialPrivateKey", tag(if has_rev { "with_r_key" } else { "no_r_key" }), &cd.sk);
     put!(arts, "CredentialKeyCorrectnessProof", tag(""), &cd.kcp);
     put!(arts, "CredentialPrimaryPublicKey", tag(""), cd.pk.get_primary_key());
+    // the link-secret attribute may carry any name (it comes from the application's non-credential
+    // schema): the same key written with `link_secret` instead of `master_secret` must decode and
+    // re-encode to the very document (sixth seeding round: a legacy conversion that invented a
+    // `master_secret` entry)
+    {
+        let mut doc = jv(cd.pk.get_primary_key());
+        if let Some(r) = doc.get_mut("r").and_then(|r| r.as_object_mut()) {
+            if let Some(v) = r.remove("master_secret") {
+                r.insert("link_secret".to_string(), v);
+            }
+        }
+        match sub::<CredentialPrimaryPublicKey>(&doc) {
+            Ok(x) => {
+                let mut a = probe_eq("CredentialPrimaryPublicKey", &tag("link_secret_named"), &x);
+                a.checks += 1;
+                if jv(&x) != doc {
+                    a.failed.push(json!({"name": "json_roundtrip", "detail": format!("type=CredentialPrimaryPublicKey variant={} backend={}: a key whose link-secret generator is named link_secret decodes and re-encodes to a different document (entries of r: {:?})",
+                        tag("link_secret_named"), backend_str(), jv(&x)["r"].as_object().map(|o| o.keys().cloned().collect::<Vec<_>>()))}));
+                }
+                arts.push(a);
+            }
+            Err(e) => return Err(format!("renamed primary key does not decode: {}", e)),
+        }
+    }
     let skd = jv(&cd.sk);
     put_sub!(arts, "CredentialPrimaryPrivateKey", CredentialPrimaryPrivateKey, tag(""), &skd["p_key"]);
     if let Some(rk) = cd.pk.get_revocation_key() {
